@@ -1,4 +1,5 @@
 from vf.core import Property, Harness, Unit
+from .units_sm import env_filter      # debugging aid: VF_SM_CASES="MODE=2,CFG=5" keeps only the matching cases
 
 REPO_TUS = ['bluetoe/utility/address.cpp']
 DESC = ('io_capabilities_matrix<input, output> for the 6 input x output option pairs (+ 4 option lists relying on defaults); '
@@ -27,11 +28,11 @@ def mk_cases(kind):
             cs.append({'MODE': 2, 'KIND': kind, 'CFG': cfg, 'STRICT': 0})
             if tier != 'quick' or cfg in STRICT_QUICK[kind]:
                 cs.append({'MODE': 2, 'KIND': kind, 'CFG': cfg, 'STRICT': 1})
-        return cs
+        return env_filter(cs)
     return cases
 
 
-COMMON = dict(unwind=20, timeout=600, diff_iters=400, diff_cases=6)
+COMMON = dict(unwind=20, timeout=600, diff_iters=150, diff_cases=4)
 PROPERTY = Property(
     'C36',
     [Harness('c36_sel_legacy', SMB_LEGACY, 'harness/c36_sel.c', mk_cases(0),
